@@ -781,6 +781,34 @@ def large_batch_oracle(ctx, uo):
                               broken="oracle (one key per output element) / C06_keys_never_shared")
 
 
+def empty_batch_oracle(ctx, uo):
+    """log_prob with a zero-size batch axis on x and / or the condition (an empty batch, e.g. after filtering data): the result shape is
+    np.broadcast_shapes(x batch, condition batch) like for any other batch.  Only log_prob (sampling with a zero-size shape raises on the
+    unchanged tree and is outside the statement).  (Seeded change C06f returned early for empty x without broadcasting the condition.)"""
+    import jax.numpy as jnp
+    import jax.random as jr
+    from flowjax.bijections import AdditiveCondition
+    from flowjax.distributions import Normal, StandardNormal, Transformed
+    from flowjax.flows import coupling_flow
+
+    flow = coupling_flow(jr.PRNGKey(int(ctx.rng.integers(0, 2**31))), base_dist=StandardNormal((3,)), cond_dim=2, flow_layers=1, nn_width=4)
+    scal = Transformed(Normal(), AdditiveCondition(lambda c: c.sum(), (), (2,)))
+    for name, d, ev in (("coupling_flow(dim 3, cond_dim 2)", flow, (3,)), ("Transformed(Normal(), AdditiveCondition) scalar event", scal, ())):
+        for xb, cb in (((0,), ()), ((0,), (0,)), ((0,), (4, 1)), ((2, 0), (1,)), ((0, 1), (5,)), ((3,), (0, 1)), ((0,), (1,)), ((1, 0), (4, 1, 1))):
+            x = jnp.zeros((*xb, *ev))
+            c = jnp.ones((*cb, 2))
+            expected = tuple(np.broadcast_shapes(xb, cb))
+            uo.count(("empty-batch", name, xb, cb), nontrivial=True, tag="empty-batch")
+            try:
+                got = tuple(np.shape(d.log_prob(x, c)))
+            except Exception as e:  # noqa: BLE001
+                got = f"{type(e).__name__}: {str(e)[:80]}"
+            if got != expected:
+                ctx.violation(sig="empty-batch:log_prob:shape", what=f"{name}: log_prob with x batch shape {xb} and condition batch shape {cb} returned {got}; NumPy broadcasting gives {expected}",
+                              case=dict(unit="empty-batch", dist=name, x_batch=list(xb), cond_batch=list(cb)), found_input=True, unit=uo.name, expected=list(expected), observed=str(got),
+                              broken="oracle (batch shapes broadcast like NumPy), zero-size axes")
+
+
 def deep_batch_oracle(ctx, uo):
     """Batch ranks 4 and 5 with a condition batch that broadcasts through size-one axes and has fewer leading axes than x: element
     I of log_prob equals the unbatched call on (x[I], condition[projected I]) (NumPy rule).  Sampled indices.  (Seeded change C06e.)"""
@@ -892,6 +920,7 @@ def run(ctx):
     large_batch_oracle(ctx, uo)
     support_edge_oracle(ctx, uo)
     deep_batch_oracle(ctx, uo)
+    empty_batch_oracle(ctx, uo)
 
 
 def replay(ctx, rep):
@@ -899,6 +928,17 @@ def replay(ctx, rep):
     if "spec" in c or "obligation" in c or "traceback" in c:
         print("not an input replay (spec/obligation): rebuild and re-run the check", c)
         return False
+    oracles = {"large-batch": large_batch_oracle, "support-edge": support_edge_oracle, "deep-batch": deep_batch_oracle, "empty-batch": empty_batch_oracle}
+    if c.get("unit") in oracles:  # model-free oracle units: re-run the unit (same seed) and look for the same signature
+        import numpy as _np
+
+        ctx.rng = _np.random.default_rng(_np.random.PCG64(int(rep.get("seed", 0))))
+        n0 = len(ctx.violations)
+        oracles[c["unit"]](ctx, ctx.unit("oracle", ""))
+        hits = [v for v in ctx.violations[n0:] if v["sig"] == rep.get("sig")]
+        for v in hits:
+            print("still failing:", v["what"][:300])
+        return not hits
     zoo = build_zoo(int(c["zoo_seed"]), only=c["dist"])
     d = zoo[c["dist"]]
     line = ctx.model([model_request(d, c)])[0]
